@@ -190,11 +190,11 @@ Proof. split; reflexivity. Qed.
 Print Assumptions C12_generated_facts_present.
 
 (* ====================================================================================== *)
-(* Glue (theories/Glue/GluePreorder.v): the (parent id, node) enumeration the writer walks is the row list
+(* Glue (theories/Glue/GluePreSer.v): the (parent id, node) enumeration the writer walks is the row list
    of the mutation machine (Mut/SurgeryFacts.v [rows]): same order, same parent component. *)
-From NT Require SurgeryFacts GluePreorder.
+From NT Require SurgeryFacts GluePreSer.
 
 Theorem C12_preorder_is_the_machines_rows : forall f o,
-  map GluePreorder.par_row (flat_map (pre_par o) f) = SurgeryFacts.rows o f.
-Proof. exact GluePreorder.pre_par_rows. Qed.
+  map GluePreSer.par_row (flat_map (pre_par o) f) = SurgeryFacts.rows o f.
+Proof. exact GluePreSer.pre_par_rows. Qed.
 Print Assumptions C12_preorder_is_the_machines_rows.
